@@ -65,6 +65,13 @@ _DT_RE = re.compile(
 def parse_dtype_string(s: str) -> DType:
     m = _DT_RE.match(s)
     if not m:
+        if re.match(r"^\s*[<>=|]?[SaU]\d+\s*$", s):
+            # a numpy string field strips TRAILING NULs only: it neither cuts at the first NUL nor refuses over-long text
+            from .report import DefiniteViolation
+            raise DefiniteViolation("nul-cut", "<dtype>", "<dtype literal>", s,
+                                    f"a fixed-width text field is declared as the numpy string dtype {s!r}: numpy keeps everything up to the LAST non-NUL byte, so bytes after the "
+                                    "terminator become part of the text (text fields must go through BTSString, which cuts at the first NUL)",
+                                    construct=f"string dtype {s}", props=("C01", "C06", "C12", "C13"))
         raise AnalysisError(f"dtype literal not understood: {s!r}")
     shape = ()
     if m.group("shape"):
